@@ -165,8 +165,8 @@ def run_case(key):
     if key["part"] == "hist":
         ns, nt = H.bfs(root, LETTERS, key["depth"], step)
         res["states"], res["trans"] = ns, nt
-    if H.LAST["budget_stop"]:
-        res["notes"]["cases_cut_at_cpu_budget"] = res["notes"].get("cases_cut_at_cpu_budget", 0) + 1
+        if H.LAST["budget_stop"]:
+            res["notes"]["cases_cut_at_cpu_budget"] = res["notes"].get("cases_cut_at_cpu_budget", 0) + 1
     else:  # long chains over a span of strain 1 (unit strain rate => time span 1)
         fl = key["flow"]
         nt = 0
